@@ -210,6 +210,7 @@ pub enum TyperError {
 
     /// A template was given more arguments than it expects
     TooManyTemplateArguments(SourceLocation),
+    TemplateInstantiationTooDeep(SourceLocation),
 
     /// Type id with declarator modifiers are not valid for any RSSL types
     InvalidTypeDeclarator(SourceLocation),
@@ -1022,6 +1023,11 @@ impl CompileError for TyperExternalError {
             },
             TyperError::TooManyTemplateArguments(loc) => w.write_message(
                 &|f| write!(f, "too many template arguments"),
+                *loc,
+                Severity::Error,
+            ),
+            TyperError::TemplateInstantiationTooDeep(loc) => w.write_message(
+                &|f| write!(f, "template instantiation depth exceeds the limit"),
                 *loc,
                 Severity::Error,
             ),
